@@ -34,7 +34,7 @@ import (
 )
 
 type opIn struct {
-	K string `json:"k"` // A (advance d ns) | C (read C) | H (hold next flush) | R (release)
+	K string `json:"k"` // A (advance d ns) | C (read C) | H (hold next flush) | R (release) | E (as first op: advance d ns immediately after construction, before the goroutines have run; elsewhere = A)
 	D int64  `json:"d,omitempty"`
 }
 
@@ -286,12 +286,30 @@ func runCase(in input) result {
 	var ch <-chan time.Time
 	var stop func()
 	var proc *capProc
+	ops := in.Ops
+	early := len(ops) > 0 && ops[0].K == "E"
+	if early && ops[0].D < 0 {
+		fmt.Fprintln(os.Stderr, "bad input: negative advancement")
+		os.Exit(2)
+	}
+	prevProcs := 0
+	if early {
+		// One P and no yield between construction and Add: the new goroutine cannot run before the
+		// clock has moved.  (If it does anyway - asynchronous preemption - the recorded NewTimer call
+		// tells the model which order happened.)
+		prevProcs = runtime.GOMAXPROCS(1)
+	}
 	if fl {
 		proc = &capProc{clk: clk.Mock, gate: make(chan struct{})}
 		mf := statsd.NewMetricFlusher(interval, offset, true, proc, nil)
 		go mf.Run(ctx)
 	} else {
 		ch, stop = verifhooks.VerifNewAlignedTicker(ctx, interval, offset)
+	}
+	if early {
+		clk.Mock.Add(time.Duration(ops[0].D))
+		runtime.GOMAXPROCS(prevProcs)
+		ops = ops[1:]
 	}
 	settle(fl)
 
@@ -306,9 +324,9 @@ func runCase(in input) result {
 		}
 		settle(true)
 	}
-	for _, op := range in.Ops {
+	for _, op := range ops {
 		switch op.K {
-		case "A":
+		case "A", "E":
 			if op.D < 0 {
 				fmt.Fprintln(os.Stderr, "bad input: negative advancement")
 				os.Exit(2)
@@ -410,9 +428,15 @@ func directChecks(in input, start *big.Int, res result) (mon []string) {
 			mon = append(mon, fmt.Sprintf("tick %s is not on a boundary", v))
 		}
 		if prev == nil {
-			lim := new(big.Int).Add(start, i)
-			if v.Cmp(start) <= 0 || v.Cmp(lim) > 0 {
-				mon = append(mon, fmt.Sprintf("first tick %s is not within (start, start+interval]", v))
+			// start-up = the clock reading at which the ticker goroutine armed its timer (= start
+			// unless the clock was advanced before the goroutine ran)
+			base := start
+			if len(res.Timers) == 1 {
+				base = res.Timers[0].at
+			}
+			lim := new(big.Int).Add(base, i)
+			if v.Cmp(base) <= 0 || v.Cmp(lim) > 0 {
+				mon = append(mon, fmt.Sprintf("first tick %s is not within (start-up, start-up+interval], start-up = %s", v, base))
 			}
 		} else if v.Cmp(prev) <= 0 {
 			mon = append(mon, fmt.Sprintf("tick %s does not exceed the previous tick %s", v, prev))
@@ -437,6 +461,8 @@ func coqTerm(in input, start *big.Int, res result) string {
 		switch op.K {
 		case "A":
 			ops[k] = hlib.App("OA", hlib.Z(op.D))
+		case "E":
+			ops[k] = hlib.App("OE", hlib.Z(op.D))
 		case "C":
 			ops[k] = "OC"
 		case "H":
@@ -689,8 +715,8 @@ func genAdvance(r *hlib.Rand, now *big.Int, i, o int64, stream string) int64 {
 	return d.Int64()
 }
 
-func genCase(r *hlib.Rand, idx int) input {
-	in := input{Scenario: "ticker", Stream: "main"}
+func genCase(r *hlib.Rand, idx int) (in input) {
+	in = input{Scenario: "ticker", Stream: "main"}
 	if idx%3 == 2 {
 		in.Scenario = "flusher"
 	}
@@ -708,6 +734,42 @@ func genCase(r *hlib.Rand, idx int) input {
 		now.Add(now, bi(d))
 		in.Ops = append(in.Ops, opIn{K: "A", D: d})
 	}
+	// In a quarter of the cases the clock moves right after construction, before the ticker goroutine
+	// has read it: by less than an interval, to / just short of / just past the next boundary, by whole
+	// intervals, by several intervals.
+	early := r.Chance(1, 4)
+	if early {
+		I, O := bi(in.Interval), bi(in.Offset)
+		toNext := new(big.Int).Sub(I, emod(new(big.Int).Sub(now, O), I))
+		var d *big.Int
+		switch r.Intn(9) {
+		case 0:
+			d = toNext
+		case 1:
+			d = new(big.Int).Sub(toNext, bi(1))
+		case 2:
+			d = new(big.Int).Add(toNext, bi(1))
+		case 3, 4:
+			d = randBelow(r, I)
+		case 5:
+			d = new(big.Int).Mul(I, bi(int64(r.Range(1, 3))))
+		case 6, 7:
+			d = new(big.Int).Mul(I, bi(int64(r.Range(1, 5))))
+			d.Add(d, randBelow(r, I))
+		default:
+			d = randBelow(r, new(big.Int).Mul(I, bi(3)))
+		}
+		if d.Cmp(bi(cap62)) > 0 {
+			d = bi(cap62)
+		}
+		now.Add(now, d)
+		in.Ops = append(in.Ops, opIn{K: "E", D: d.Int64()})
+	}
+	defer func() {
+		if early {
+			in.Style += "+early"
+		}
+	}()
 	if in.Scenario == "ticker" {
 		in.Style = hlib.Pick(r, []string{"prompt", "prompt", "slow", "burst", "late"})
 		switch in.Style {
